@@ -5,6 +5,15 @@ pid, n = sys.argv[1], sys.argv[2]
 extra = sys.argv[3] if len(sys.argv) > 3 else ''
 prop = [json.loads(l) for l in open('/verif/properties.jsonl') if json.loads(l)['id'] == pid][0]
 wt = '/tmp/seed/%s_%s' % (pid, n)
+import glob
+tried = []
+for mf in sorted(glob.glob('/verif/seeded/%s_*/meta.json' % pid)):
+    try:
+        tried.append('    - ' + json.load(open(mf))['breaks'][:260])
+    except Exception:
+        pass
+if tried:
+    extra += (' Other developers have already made the following changes for this property; do NOT repeat any of them or a close variant (same function and same kind of slip) - pick a different function or a different kind of slip:\n' + '\n'.join(tried) + '\n')
 if not os.path.exists(wt):
     subprocess.check_call(['git', '-C', '/repo', 'worktree', 'add', '--detach', wt, 'HEAD'], stdout=subprocess.DEVNULL, stderr=subprocess.DEVNULL)
 print(f"""You are helping to evaluate a verification framework for the C++ header-only math library g-truc/glm. Your job is to play the role of a developer who introduces a subtle regression.
